@@ -158,6 +158,32 @@ def _work_expr(c: tuple) -> dict:
     return observe_expr(c[0], c[1])
 
 
+def observe_tree(tree: dict, xid: str) -> dict:
+    """A requestBody-like JSON tree through the real nested evaluation."""
+    st = _setup()
+    try:
+        value = st["expressions"].evaluate(dec(tree), _output(xid), evaluate_nested=True)
+    except Exception as exc:
+        return {"k": "error", "v": NONE, "exc": type(exc).__name__}
+    if value is st["UNRESOLVABLE"]:
+        return {"k": "unres", "v": NONE}
+    return {"k": "val", "v": enc(value)}
+
+
+def _work_tree(c: tuple) -> dict:
+    return observe_tree(c[0], c[1])
+
+
+def tree_class(tree: dict) -> str:
+    """Container kinds on the way to the deepest string, e.g. obj-arr-obj."""
+    def walk(d: dict, path: tuple) -> list:
+        if d["t"] in ("arr", "obj"):
+            return [p for v in d["a"] for p in walk(v, path + (d["t"],))]
+        return [path] if d["t"] == "str" else []
+    paths = walk(tree, ())
+    return "-".join(max(paths, key=len)) or "leaf" if paths else "no-string"
+
+
 def link_schema(expr) -> dict:
     raw = copy.deepcopy(EVAL_RAW)
     raw["paths"]["/users/{id}"]["post"]["responses"]["201"]["links"] = {
@@ -261,6 +287,16 @@ FAMILIES: dict[str, dict] = {
         "get": L(BY_ID("getUser"), {"path.id": "$response.body#/id", "query.q": "$response.body#/k~11",
                                     "query.via": "$response.body#/missing", "header.X-Trace": "$response.body#/tags/0"}),
         "del": L(BY_REF("delete"), {"id": "$response.body#/nested/ids/1"})}}},
+    # two DIFFERENT links out of the same response: each derived request must carry its own link's data
+    "two-links": {"links": {"201": {
+        "get": L(BY_ID("getUser"), {"id": "$response.body#/id", "query.q": "$response.header.X-Rid"}),
+        "put": L(BY_REF("put"), {"path.id": "$response.body#/nested/ids/0"}, {"name": "$response.body#/name", "tag": "second"}),
+        "del": L(BY_REF("delete"), {"id": "$response.body#/nested/ids/1"})}}},
+    # expressions below an array inside the body (depth >= 2 through an array); a second link whose nested value denotes nothing
+    "nested-array-body": {"links": {"201": {
+        "put": L(BY_ID("putUser"), {"id": "$response.body#/id"},
+                 {"items": [{"sku": "$request.body#/name", "n": ["$response.body#/tags/1", "k"]}, "$statusCode"], "name": "$response.body#/name"}),
+        "del": L(BY_REF("delete"), {"id": "$response.body#/id"}, {"items": [{"sku": "$response.body#/missing"}]})}}},
     # status routing: exact, wildcard and default keys next to documented keys without links
     "status-keys": {"links": {"201": {"exact": L(BY_ID("getUser"), {"id": "$response.body#/id", "query.via": "ex"})},
                               "4XX": {"wild": L(BY_ID("getUser"), {"id": "$response.body#/id", "query.via": "wi"})},
@@ -299,6 +335,8 @@ def run_live(name: str, fam: dict, seed: int, examples: int) -> list[dict]:
         return out
 
     links = {(key, lname): ldef for key, ls in fam["links"].items() for lname, ldef in ls.items()}
+    target_method = lambda ldef: {"getUser": "GET", "putUser": "PUT"}.get(ldef.get("operationId"), ldef.get("operationRef", "/").rsplit("/", 1)[-1].upper())
+    foreign = []
     all_keys = sorted(set(fam["links"]) | set(fam.get("extra", ())))
     records = []
     with LoopbackServer(behaviour) as srv:
@@ -328,8 +366,73 @@ def run_live(name: str, fam: dict, seed: int, examples: int) -> list[dict]:
             if not m or (m.group(1), m.group(2)) not in links:
                 raise RuntimeError("unknown transition id %r" % node.transition.id)
             key, lname = m.group(1), m.group(2)
+            # the link that was followed is the one whose target is the operation requested (unique per key in most families)
+            by_target = [kl for kl, ldef in links.items() if kl[0] == key and target_method(ldef) == log[cid].method]
+            if len(by_target) == 1 and by_target[0] != (key, lname):
+                foreign.append("request %s %s carries the recorded transition %r" % (log[cid].method, log[cid].target, node.transition.id))
+                key, lname = by_target[0]
             records.append(live_record(name, key, lname, links[(key, lname)], all_keys, log[node.parent_id], sent, log[cid], base))
-    return [{"family": name, "errors": errors, "requests": len(log), "records": records}]
+    return [{"family": name, "errors": errors, "requests": len(log), "records": records, "foreign": foreign}]
+
+
+def run_extract(name: str, fam: dict) -> list[dict]:
+    """link.extract(output) of the REAL links of a family on one stored StepOutput: every link alone and every ordered pair of
+    different links on the SAME output (the second call must not see the first link's data).  Records have the live shape; the
+    'sent' side is what the returned Transition holds (strict: an unresolvable body must be absent)."""
+    import requests
+    import schemathesis
+    from schemathesis.core.result import Ok
+    from schemathesis.core.transforms import UNRESOLVABLE
+    from schemathesis.core.transport import Response
+    from schemathesis.generation.stateful.state_machine import StepOutput
+    from schemathesis.specs.openapi.stateful.links import get_all_links
+
+    base = "http://127.0.0.1/api"
+    schema = schemathesis.openapi.from_dict(live_schema(fam["links"], fam.get("extra", ()))).configure(base_url=base)
+    op = schema["/users"]["POST"]
+    real = {}
+    for key, res in get_all_links(op):
+        real[(key, res.ok().name)] = res.ok()
+    all_keys = sorted(set(fam["links"]) | set(fam.get("extra", ())))
+    rbody = {"id": 3, "name": "n3", "tags": ["ta", "tb"], "k/1": "sx", "nested": {"ids": [7, 3]}}
+    rheaders = [("Content-Type", "application/json"), ("Location", "/users/3"), ("X-Rid", "r3")]
+    req = requests.Request("POST", base + "/users").prepare()
+    container = {"path": "path_parameters", "query": "query", "header": "headers"}
+
+    def record(kl: tuple, tr, status: int, case, position: str) -> dict:
+        ldef = fam["links"][kl[0]][kl[1]]
+        x = {"method": cps("POST"), "url": cps(base + "/users"), "status": status, "path": [], "query": [], "headers": [],
+             "body": enc(case.body), "rheaders": _pairs(rheaders), "rbody": enc(rbody)}
+        params = []
+        for pname, expr in (ldef.get("parameters") or {}).items():
+            loc, _, n = pname.partition(".") if "." in pname else ("", "", pname)
+            loc = loc or ("path" if n == "id" else "query")
+            got = tr.parameters.get(container[loc], {}).get(n)
+            value = got.value.ok() if got is not None and isinstance(got.value, Ok) else None
+            ok = value is not None and value is not UNRESOLVABLE
+            params.append({"name": pname, "expr": cps(expr), "sent": ok, "text": cps(str(value) if ok else "")})
+        body = {"has": False, "merge": False, "strict": True, "def": NONE, "sent": NONE}
+        if "requestBody" in ldef:
+            got = tr.request_body
+            ok = got is not None and isinstance(got.value, Ok) and got.value.ok() is not UNRESOLVABLE
+            body = {"has": True, "merge": False, "strict": True, "def": enc(ldef["requestBody"]), "sent": enc(got.value.ok()) if ok else NONE}
+        return {"kind": "live", "site": "extract", "position": position, "family": name, "link": kl[1], "key": kl[0], "keys": all_keys,
+                "x": x, "params": params, "body": body, "derived": "Transition %s" % tr.id, "tid_ok": tr.id.split("] ")[-1].startswith(kl[1] + " ->")}
+
+    out = []
+    status_of = lambda key: {"201": 201, "4XX": 404, "default": 299}[key]
+    for a in real:
+        for b in [None] + [b for b in real if b != a and b[0] == a[0]]:
+            status = status_of(a[0])
+            case = op.Case(body={"name": "ab"}, media_type="application/json")
+            output = StepOutput(Response(status_code=status, headers={k.lower(): [v] for k, v in rheaders}, content=json.dumps(rbody).encode(),
+                                         request=req, elapsed=0.0, verify=False), case)
+            first = real[a].extract(output)
+            if b is None:
+                out.append(record(a, first, status, case, "alone"))
+            else:
+                out.append(record(b, real[b].extract(output), status, case, "after-another-link-on-the-same-output"))
+    return out
 
 
 def _pairs(items) -> list[dict]:
@@ -364,9 +467,9 @@ def live_record(fam: str, key: str, lname: str, ldef: dict, all_keys: list[str],
             loc = "path" if n == "id" else "query"  # implicit location: where the target declares it
         value = got[loc].get(n.lower() if loc == "header" else n)
         params.append({"name": pname, "expr": cps(expr), "sent": value is not None, "text": cps(value or "")})
-    body = {"has": False, "merge": True, "def": NONE, "sent": NONE}
+    body = {"has": False, "merge": True, "strict": False, "def": NONE, "sent": NONE}
     if "requestBody" in ldef:
-        body = {"has": True, "merge": (ldef.get("x-schemathesis") or {}).get("merge_body", True),
+        body = {"has": True, "strict": False, "merge": (ldef.get("x-schemathesis") or {}).get("merge_body", True),
                 "def": enc(ldef["requestBody"]), "sent": _json_or_none(derived.body)}
     return {"kind": "live", "family": fam, "link": lname, "key": key, "keys": all_keys, "x": x, "params": params, "body": body,
             "derived": "%s %s %s" % (derived.method, derived.target, derived.body.decode("latin-1")[:200])}
@@ -455,7 +558,10 @@ def py_live_verdicts(r: dict) -> set:
     if b["has"]:
         exp = _py_tree(dec(b["def"]), r["x"])
         sent = dec(b["sent"]) if b["sent"]["t"] not in ("none", "opaque") else _MISSING
-        if exp is not _MISSING:
+        if exp is _MISSING:
+            if b.get("strict") and b["sent"]["t"] != "none":
+                bad.add(("live-body", 0))
+        else:
             if b["merge"] and isinstance(exp, dict) and isinstance(sent, dict):
                 if any(k not in sent or enc(sent[k]) != enc(v) for k, v in exp.items()):
                     bad.add(("live-body", 0))
@@ -556,19 +662,25 @@ def expr_signature(exp: dict, o: dict, expr: str, xid: str) -> str:
 
 
 # --------------------------------------------------------------------------------------------------
+TREES: list[tuple] = []  # (tree, exchange id, expected) of the last enumeration
+
+
 def _enumerate(cfg: str):
     cases, statuses, exchanges = [], [], {}
+    TREES.clear()
 
     def on(tag: str, c: dict) -> None:
         if tag == "CASE":
             cases.append((txt(c["e"]), c["x"], c["exp"]))
+        elif tag == "TREE":
+            TREES.append((c["tree"], c["x"], c["exp"]))
         elif tag == "STATUS":
             statuses.append((c["key"], tuple(sorted(c["keys"])), sorted(c["matched"])))
         elif tag == "EXCHANGE":
             exchanges.update(c)
 
     res = tlc.require_ok(tlc.run_tlc("Links", cfg, workers=16, timeout=3000, on_json=on, want_prints=False), "Links enumeration")
-    if len({(c[0], c[1]) for c in cases}) != len(cases) or len(cases) + len(statuses) != res.distinct // 2 or not exchanges:
+    if len({(c[0], c[1]) for c in cases}) != len(cases) or len(cases) + len(statuses) + len(TREES) != res.distinct // 2 or not exchanges:
         raise tlc.TLCFailure("Links export incomplete: %d expression cases, %d status cases, %d states" % (len(cases), len(statuses), res.distinct))
     return res, cases, statuses, exchanges
 
@@ -585,7 +697,7 @@ def _expr_record(expr: str, xid: str, o: dict) -> dict:
 
 
 def _clean_live(r: dict) -> dict:
-    return {"kind": "live", "key": r["key"], "keys": r["keys"], "x": r["x"], "body": r["body"],
+    return {"kind": "live", "key": r["key"], "keys": r["keys"], "x": r["x"], "body": dict(r["body"], strict=r["body"].get("strict", False)),
             "params": [{"expr": p["expr"], "sent": p["sent"], "text": p["text"]} for p in r["params"]]}
 
 
@@ -601,6 +713,8 @@ def run(ctx: Ctx) -> Outcome:
     t1 = time.time()
     # (b) expressions through the real parser / evaluator
     obs = common.pmap(_work_expr, [(c[0], c[1]) for c in cases])
+    trees = list(TREES)
+    tobs = common.pmap(_work_tree, [(t[0], t[1]) for t in trees])
     # (b') malformed expressions as link parameters: the state machine must refuse the schema
     malformed = sorted({c[0] for c in cases if c[2]["k"] == "malformed"})
     built = dict(zip(malformed, common.pmap(_work_construct, malformed)))
@@ -613,8 +727,10 @@ def run(ctx: Ctx) -> Outcome:
     examples = 6 if ctx.quick else 25
     for name, fam in FAMILIES.items():
         live.extend(run_live(name, fam, ctx.seed + 1, examples))
+    # (d) link.extract on one stored output: every link alone and after a different link
+    extract_records = [r for name, fam in FAMILIES.items() for r in run_extract(name, fam)]
     t_live = time.time() - t2
-    live_records = [r for fam in live for r in fam["records"]]
+    live_records = [r for fam in live for r in fam["records"]] + extract_records
 
     # ---- python-side comparison
     dis_expr = [i for i, (c, o) in enumerate(zip(cases, obs)) if not agree_expr(c[2], o)]
@@ -622,6 +738,7 @@ def run(ctx: Ctx) -> Outcome:
     parse_accepts = {c[0] for c, o in zip(cases, obs) if o["k"] != "rejected"}
     dis_build = [e for e, r in built.items() if r != "rejected" and e not in parse_accepts]
     dis_status = [i for i, (s, m) in enumerate(zip(statuses, matched)) if not set(m) <= set(s[2])]
+    dis_tree = [i for i, (t, o) in enumerate(zip(trees, tobs)) if not agree_expr(t[2], o)]
     incomplete_status = sum(1 for s, m in zip(statuses, matched) if set(m) != set(s[2]))
 
     # ---- code -> spec: TLC judges all disagreements, a sample of agreeing expression observations, every status and live observation
@@ -631,10 +748,12 @@ def run(ctx: Ctx) -> Outcome:
     records = [_expr_record(cases[i][0], cases[i][1], obs[i]) for i in chosen]
     n_expr = len(records)
     records += [{"kind": "status", "key": s[0], "keys": list(s[1]), "matched": m} for s, m in zip(statuses, matched)]
-    n_status = len(statuses)
+    records += [{"kind": "tree", "tree": t[0], "x": _EXCHANGES[t[1]], "obs": {"k": o["k"], "v": o["v"]}} for t, o in zip(trees, tobs)]
+    n_status = len(statuses) + len(trees)
     records += [_clean_live(r) for r in live_records]
     jres, tlc_dis = _judge(ctx, records)
     py_dis = {(n, "expr", 0) for n, i in enumerate(chosen, 1) if i in dset} | {(n_expr + 1 + i, "status", 0) for i in dis_status}
+    py_dis |= {(n_expr + len(statuses) + 1 + i, "tree", 0) for i in dis_tree}
     tlc_live = {d for d in tlc_dis if d[1].startswith("live")}
     base_n = n_expr + n_status
     py_dis |= {(base_n + 1 + n, what, idx) for n, r in enumerate(live_records) for what, idx in py_live_verdicts(r)}
@@ -659,6 +778,14 @@ def run(ctx: Ctx) -> Outcome:
     for e in sorted(dis_build, key=lambda e: (len(e), e)):
         emit("C10:link-construction:malformed-accepted:" + expr_class(e, "X1"),
              "a link with parameter expression %r is accepted when the state machine is built" % e, {"kind": "construct", "e": e})
+    for i in dis_tree:
+        tree, xid, exp = trees[i]
+        o = tobs[i]
+        direction = "unresolvable-yields-value" if exp["k"] == "unres" else "wrong-value" if o["k"] == "val" else "value-lost:" + o["k"]
+        emit("C10:nested:%s:%s" % (direction, tree_class(tree)), "evaluate(%s, nested) on %s: spec %s%s, implementation %s%s" % (
+            json.dumps(dec(tree)), xid, exp["k"], " " + json.dumps(dec(exp["v"])) if exp["k"] == "val" else "", o["k"],
+            " " + json.dumps(dec(o["v"])) if o["k"] == "val" and o["v"]["t"] != "opaque" else ""),
+            {"kind": "tree", "tree": tree, "x": xid, "exp": exp, "exchange": exchanges[xid]})
     for i in dis_status:
         key, keys, exp_m = statuses[i]
         extra = sorted(set(matched[i]) - set(exp_m))
@@ -667,23 +794,31 @@ def run(ctx: Ctx) -> Outcome:
              {"kind": "status", "key": key, "keys": list(keys), "expected": exp_m})
     for d in sorted(tlc_live):
         r = live_records[d[0] - base_n - 1]
+        site = r.get("site", "live") + (":" + r["position"] if r.get("position", "alone") != "alone" else "")
         if d[1] == "live-param":
             p = r["params"][d[2] - 1]
-            sig = "C10:live:param:%s:%s" % (r["family"], expr_class(txt(p["expr"]), ""))
+            sig = "C10:%s:param:%s:%s" % (site, r["family"], expr_class(txt(p["expr"]), ""))
             summary = "family %s link %s: parameter %s = %r arrived as %r in '%s' (source: %s -> %d)" % (
                 r["family"], r["link"], p["name"], txt(p["expr"]), txt(p["text"]) if p["sent"] else None, r["derived"], txt(r["x"]["url"]), r["x"]["status"])
         elif d[1] == "live-body":
-            sig = "C10:live:body:%s:%s" % (r["family"], "merge" if r["body"]["merge"] else "no-merge")
+            sig = "C10:%s:body:%s:%s" % (site, r["family"], "merge" if r["body"]["merge"] else "no-merge")
             summary = "family %s link %s: requestBody %s arrived as '%s'" % (r["family"], r["link"], json.dumps(dec(r["body"]["def"])), r["derived"])
         else:
             sig = "C10:live:status:key=%s" % ("default" if r["key"] == "default" else "NXX" if "X" in r["key"].upper() else "exact")
             summary = "family %s: link %s under key %r followed from a %d response (documented keys %s)" % (
                 r["family"], r["link"], r["key"], r["x"]["status"], r["keys"])
-        emit(sig, summary, {"kind": "live", "record": _clean_live(r), "what": list(d[1:]), "family": r["family"]})
+        emit(sig, summary, {"kind": "extract" if r.get("site") == "extract" else "live", "record": _clean_live(r), "what": list(d[1:]),
+                            "family": r["family"]})
     for sig, n in emitted.items():
         if n > 3:
             out.notes.append("%d further instances of %s not listed" % (n - 3, sig))
+    for r in extract_records:
+        if not r["tid_ok"]:
+            emit("C10:extract:transition-of-another-link" + (":" + r["position"] if r["position"] != "alone" else ""),
+                 "family %s: link %s .extract(output) returned '%s'" % (r["family"], r["link"], r["derived"]), {"kind": "extract", "family": r["family"]})
     for fam in live:
+        for msg in fam["foreign"][:1]:
+            emit("C10:live:transition-of-another-link", "family %s: %s" % (fam["family"], msg), {"kind": "live-foreign", "family": fam["family"]})
         for err in fam["errors"][:1]:  # with links working, the stateful phase on these families raises nothing
             emit("C10:live:engine-error:%s" % re.sub(r"\W.*", "", err), "stateful phase on family %s reported an internal error: %s" % (fam["family"], err),
                  {"kind": "live-error", "family": fam["family"]})
@@ -706,21 +841,24 @@ def run(ctx: Ctx) -> Outcome:
         "states": res.distinct, "transitions": res.generated,
         "traces_validated_against_impl": len(records),
         "samples": samples,
-        "evaluations": len(cases) + len(statuses) * 500 + len(malformed) + len(live_records),
-        "distinct_nontrivial": len(cases) - kinds.get("U", 0) + len(statuses) + len(live_records),
+        "evaluations": len(cases) + len(statuses) * 500 + len(malformed) + len(live_records) + len(trees),
+        "distinct_nontrivial": len(cases) - kinds.get("U", 0) + len(statuses) + len(live_records) + len(trees),
         "expression_cases": len(cases), "expected_kinds": kinds, "skipped_outside_fragment": kinds.get("U", 0),
         "status_cases": len(statuses), "status_codes_per_case": 500, "status_key_sets_where_real_matcher_is_narrower_than_spec": incomplete_status,
-        "malformed_as_link_parameter": len(malformed),
+        "malformed_as_link_parameter": len(malformed), "value_tree_cases": len(trees),
+        "extract_records": len(extract_records),
         "live": {"families": {f["family"]: {"requests": f["requests"], "link_derived": len(f["records"]), "engine_errors": len(f["errors"])} for f in live},
                  "derived_requests_by_family_and_key": live_keys},
         "rule": "Links.tla under %s: every (link key, documented key set of <=3 of 8 keys) x all statuses 100..599; every expression of "
                 "the family (well-formed bare forms, both body references with every pointer of <= PtrLen tokens over 17 token shapes, "
                 "embedded templates, all strings within one structural edit of the base set) x 2 exchanges; every malformed one also as a "
-                "link parameter; live: every link-derived request of the stateful phase on %d link families; non-trivial = spec verdict "
-                "is not U" % (cfg, len(FAMILIES)),
+                "link parameter; every value tree (7 shapes up to depth 4 through arrays x 5 leaves^2) x 2 exchanges through nested "
+                "evaluation; live: every link-derived request of the stateful phase on %d link families (incl. several links out of one "
+                "response), plus link.extract of every link alone and after every other link on the same stored output; non-trivial = spec "
+                "verdict is not U" % (cfg, len(FAMILIES)),
         "exhaustive": True,
         "constants": {"cfg": cfg, "live_examples_per_family": examples},
-        "disagreements": {"expr": len(dis_expr), "construction": len(dis_build), "status": len(dis_status), "live": len(tlc_live)},
+        "disagreements": {"expr": len(dis_expr), "construction": len(dis_build), "status": len(dis_status), "tree": len(dis_tree), "live": len(tlc_live)},
         "tlc_enumeration_s": round(res.wall_s, 1), "replay_s": round(t_replay, 1), "live_s": round(t_live, 1), "tlc_judge_s": round(jres.wall_s, 1),
         "judge_states": jres.distinct,
     }
@@ -756,6 +894,18 @@ def replay(ctx: Ctx, data: dict) -> Outcome:
             out.violations.append(Violation("C10:status:followed-from-non-matching:key=%s" % (
                 "default" if data["key"] == "default" else "NXX" if "X" in data["key"].upper() else "exact"),
                 "statuses %s" % sorted(set(m) - set(data["expected"]))[:8], data))
+    elif kind == "tree":
+        _EXCHANGES[data["x"]] = data["exchange"]
+        o = observe_tree(data["tree"], data["x"])
+        if not agree_expr(data["exp"], o):
+            out.violations.append(Violation("C10:nested:%s:%s" % ("unresolvable-yields-value" if data["exp"]["k"] == "unres" else "wrong-value",
+                                                                  tree_class(data["tree"])), "nested evaluation: implementation %s" % o["k"], data))
+    elif kind in ("extract", "live-foreign"):
+        fam = data["family"]
+        recs = run_extract(fam, FAMILIES[fam])
+        _, dis = _judge(ctx, [_clean_live(r) for r in recs])
+        if dis or any(not r["tid_ok"] for r in recs) or (kind == "live-foreign" and run_live(fam, FAMILIES[fam], ctx.seed + 1, 6)[0]["foreign"]):
+            out.violations.append(Violation("C10:%s:%s" % (kind, fam), "reproduced", data))
     elif kind == "live-error":
         for f in run_live(data["family"], FAMILIES[data["family"]], ctx.seed + 1, 6):
             for err in f["errors"][:1]:
